@@ -948,7 +948,13 @@ def run_t4(ctx, nlist, tap=None):
                         ctx.count('t4_zone_downward' if float(zone['steps'][0]['rows'][0][0])
                                   > float(zone['steps'][0]['rows'][0][1]) else 't4_zone_upward')
                         ctx.count('t4_zone_time' if zone['with_time'] else 't4_zone_notime')
-            ctx.case_seen({'kind': 't4', 'listing': num, 'edition': edi['batch']}, True, sample_every=97)
+            # the sample written to the evidence shows what the edition contains (responses, zones, printed rows)
+            ctx.case_seen({'kind': 't4', 'listing': num, 'edition': edi['batch'],
+                           'responses': [{'function': r.get('function'), 'name': r.get('name'),
+                                          'zones': [{'vol': z.get('vol'), 'with_time': z.get('with_time'),
+                                                     'first_step_rows': z['steps'][0]['rows'][:3]}
+                                                    for z in r.get('zones', [])][:2]}
+                                         for r in edi.get('responses', [])][:2]}, True, sample_every=97)
         os.unlink(path)
     return cases, index, textcases, textindex
 
